@@ -89,6 +89,7 @@ class SimFile:
         self.name = path
         self._fh = _REAL_OPEN(path, mode, buffering=0)
         self._dead = False
+        self._dead_pos = 0
         self._since_seek = 0
         self.closed = False
         world.stats["files_opened_w"] += 1
@@ -126,20 +127,29 @@ class SimFile:
         return n
 
     def seek(self, pos, whence=0):
+        if self._dead:
+            self._dead_pos = pos if whence == 0 else self._dead_pos
+            return self._dead_pos
         self._since_seek = 0
         return self._fh.seek(pos, whence)
 
     def tell(self):
+        if self._dead:
+            return self._dead_pos
         return self._fh.tell()
 
     def flush(self) -> None:
-        if not self.closed:
+        if not self.closed and not self._dead:
             self._fh.flush()
 
     def truncate(self, size=None):
+        if self._dead:
+            return 0
         return self._fh.truncate(size)
 
     def read(self, n=-1):
+        if self._dead:
+            return b""
         return self._fh.read(n)
 
     def seekable(self) -> bool:
@@ -155,21 +165,27 @@ class SimFile:
         raise OSError("simulated file has no descriptor")
 
     def close(self) -> None:
+        if self._dead:
+            return  # stays "open" for the abandoned ZipFile's finaliser; the real handle is gone
         if not self.closed:
             self.closed = True
             self._fh.close()
 
     def _kill(self, lost: int) -> None:
         """The write fault fired: freeze the durable content, drop everything after."""
-        self._dead = True
+        if self._dead:
+            return
         try:
+            self._dead_pos = self._fh.tell()
             if lost:
                 drop = min(lost, self._since_seek)
                 if drop:
                     size = self._fh.seek(0, 2)
                     self._fh.truncate(max(0, size - drop))
         finally:
+            self._dead = True
             self._fh.flush()
+            self._fh.close()
 
     def __enter__(self):
         return self
@@ -336,6 +352,7 @@ class World:
         self.uninstall()
         for f in self._open_files:
             try:
+                f._dead = False
                 f.close()
             except Exception:  # noqa: BLE001
                 pass
@@ -349,7 +366,7 @@ class World:
             self.stats["crash_fired"] += 1
             # every file still open at the instant of death loses what follows
             for of in self._open_files:
-                if not of.closed:
+                if not of.closed and not of._dead:
                     of._kill(plan.lost if of is f else 0)
             raise SimCrash(f"crash after {plan.written} bytes in {plan.fired_in}")
         self.stats["write_error_fired"] += 1
@@ -362,10 +379,7 @@ class World:
     def end_save(self) -> None:
         """After a save returned or failed: finalisers run at a fixed point of the schedule."""
         gc.collect()
-        for of in self._open_files:
-            if not of.closed and of._dead:
-                of.close()
-        self._open_files = [f for f in self._open_files if not f.closed]
+        self._open_files = [f for f in self._open_files if not f.closed and not f._dead]
         self.write_plan = None
 
     # -- helpers for the harness (bypass the seams) ---------------------------------------------
